@@ -277,18 +277,23 @@ class XMLDocParser:
             if parameter_list is not None:
                 for i, parameter_item in enumerate(
                         parameter_list.findall(".//parameteritem")):
-                    name = parameter_item.find(".//parametername").text
-                    desc = parameter_item.find(
-                        ".//parameterdescription/para").text
+                    # Either element may be absent (e.g. `@param x` without
+                    # any description text).
+                    name_element = parameter_item.find(".//parametername")
+                    name = None if name_element is None else name_element.text
+                    desc_element = parameter_item.find(
+                        ".//parameterdescription/para")
+                    desc = None if desc_element is None else desc_element.text
                     if name not in ignored_params:
                         docstring += f"{name.strip() if name else f'[Parameter {i}]'}: {desc.strip() if desc else 'No description provided'}\n"
 
             # Add return value docs
             return_sect = detailed_description.find(".//simplesect")
-            if return_sect is not None and return_sect.attrib[
-                    "kind"] == "return" and return_sect.find(
-                        "para").text is not None:
-                docstring += f"Returns: {return_sect.find('para').text.strip()}"
+            return_para = None if return_sect is None else return_sect.find(
+                "para")
+            if return_para is not None and return_sect.attrib.get(
+                    "kind") == "return" and return_para.text is not None:
+                docstring += f"Returns: {return_para.text.strip()}"
 
         return docstring.strip()
 
